@@ -4,6 +4,7 @@ import (
 	"context"
 	"errors"
 	"net"
+	"time"
 
 	"github.com/DataDog/datadog-traceroute/cache"
 	"github.com/DataDog/datadog-traceroute/reversedns"
@@ -32,6 +33,10 @@ func (r *vResolver) lookup(ctx context.Context, addr string) ([]string, error) {
 	case 1:
 		return nil, nil
 	case 3:
+		// a resolver that never answers: the call returns when the deadline it was handed expires
+		if dl, ok := ctx.Deadline(); ok {
+			V.Sleep(V.Until(dl))
+		}
 		return nil, context.DeadlineExceeded
 	}
 	return nil, errors.New("lookup failed")
@@ -88,7 +93,10 @@ func Verif_C18_rdns() {
 		before = append(before, snap{h.TTL, append([]byte(nil), h.IPAddress...), h.RTT, h.IsDest})
 	}
 	r.Traceroute.Runs = append(r.Traceroute.Runs, run)
+	t0 := V.NowNs()
 	r.EnrichWithReverseDns()
+	// the lookups of a batch run side by side: however many resolvers stall, the batch takes one lookup timeout
+	V.Assert(V.NowNs()-t0 <= int64(5*time.Second), "C08/dns-batch-bounded-by-one-lookup-timeout")
 	check := func(ip net.IP, got []string, label string) {
 		if len(ip) == 0 {
 			V.Assert(len(got) == 0, "C18/no-names-without-address")
